@@ -28,9 +28,12 @@ CodonAt(seq, s) == SubSeq(seq, s + 1, s + 3)                 \* s 0-based, s + 3
 IsStartAt(seq, starts, s) == s >= 0 /\ s + 3 <= Len(seq) /\ CodonAt(seq, s) \in starts
 IsStopAt(seq, stops, s)  == s >= 0 /\ s + 3 <= Len(seq) /\ CodonAt(seq, s) \in stops
 
-\* ends (exclusive) of the in-frame stop codons after the start codon at s
+\* ends (exclusive) of the in-frame stop codons at or after the start codon at s. A codon may be in both
+\* sets: a start codon that is also a stop codon closes its own frame at once (the frame is the codon
+\* itself, length 3) -- like every stop codon it closes the frames open in its reading frame and it leaves
+\* no frame open. For disjoint sets the codon at s is never a stop and the first candidate is s + 6.
 StopEnds(seq, stops, s) ==
-    {e \in (s + 6)..Len(seq) : (e - s) % 3 = 0 /\ IsStopAt(seq, stops, e - 3)}
+    {e \in (s + 3)..Len(seq) : (e - s) % 3 = 0 /\ IsStopAt(seq, stops, e - 3)}
 
 IsFrame(seq, starts, stops, s, e) ==
     /\ IsStartAt(seq, starts, s)
@@ -44,11 +47,10 @@ Frames(seq, starts, stops) ==
 MinOf(S) == CHOOSE x \in S : \A y \in S : x <= y
 FramesFast(seq, starts, stops) ==
     {<<s, MinOf(StopEnds(seq, stops, s))>> :
-        s \in {x \in 0..(Len(seq) - 6) : IsStartAt(seq, starts, x) /\ StopEnds(seq, stops, x) # {}}}
+        s \in {x \in 0..(Len(seq) - 3) : IsStartAt(seq, starts, x) /\ StopEnds(seq, stops, x) # {}}}
 
-\* `rep` = sequence of records [start, end, offset] as reported by find_all
-OrfReportOk(seq, starts, stops, minlen, rep) ==
-    LET fr == FramesFast(seq, starts, stops) IN
+\* `rep` = sequence of records [start, end, offset] as reported by find_all; fr = the set of frames
+OrfReportOkFr(fr, minlen, rep) ==
     /\ \A i \in 1..Len(rep) :
           /\ <<rep[i].start, rep[i].end>> \in fr
           /\ rep[i].end - rep[i].start >= minlen
@@ -58,6 +60,8 @@ OrfReportOk(seq, starts, stops, minlen, rep) ==
           (i # j) => <<rep[i].start, rep[i].end>> # <<rep[j].start, rep[j].end>>
     /\ \A f \in fr : f[2] - f[1] > minlen + 2 =>
           \E i \in 1..Len(rep) : rep[i].start = f[1] /\ rep[i].end = f[2]
+
+OrfReportOk(seq, starts, stops, minlen, rep) == OrfReportOkFr(FramesFast(seq, starts, stops), minlen, rep)
 
 \* ---- finder machine: step operators
 \* sliding window of the last <= 3 symbols
